@@ -6,8 +6,8 @@ from props import c03
 from gen_hc import Sim, Net, pick_cfg, random_traffic, pick_len, parse_probe, F
 
 PROP = "C06"
-LAKE_TARGETS = ["Uflow.Props.C06", "Uflow.Props.C06Hc", "uflow_driver"]
-PROPS_FILES = ["C06", "C06Hc"]
+LAKE_TARGETS = ["Uflow.Props.C06", "Uflow.Props.C06Hc", "Uflow.Props.C06NoDud", "uflow_driver"]
+PROPS_FILES = ["C06", "C06Hc", "C06NoDud"]
 TRUSTED_BASE = [
     "Lean 4.33 kernel; axioms per theorem under coverage.axioms",
     "tools/extract_consts.py (MAX_FRAGMENT_SIZE, MAX_PACKET_WINDOW_SIZE)",
